@@ -409,6 +409,7 @@ fn gen_sink(rng: &mut Rng, cfg: &GenCfg, cur: &Cursor) -> Sink {
                 BufKind::OwnedVec,
             ]),
             len: gen_buf_len(rng, cur.rem),
+            slack: *rng.pick(&[0usize, 0, 1, 3, 8]),
         },
     }
 }
